@@ -151,6 +151,12 @@ def copyStep (w : CopyWorld) (toks : List String) : Option (CopyWorld × String)
       some ({ w with handles := (w.handles.filter (·.1 != b)) ++ [(b, s)] }, "ok same-as=" ++ a)
     | none => some (w, "bad-op")
   | "mut" :: h :: rest =>
+    let arity : Option Nat := match rest.head? with
+      | some "block" => some 1
+      | some k => if ["mutant", "mutantvalid", "slots", "slot", "checkpoint", "header", "addval", "eth1vote", "histroot"].contains k then some 2
+                  else if ["balance", "exit", "root", "mix"].contains k then some 3 else none
+      | none => none
+    if arity != some rest.length then some (w, "bad-op") else
     if has h then
       -- a valid block (the chain's own next block, or a still-valid variant of it) is accepted exactly by the
       -- value it was built for: any earlier change of that handle changes the state root the block commits to
